@@ -720,8 +720,10 @@ func (w *c11sWorld) judge() []c11sFinding {
 			}
 		}
 	}
-	// (a2) the graceful-stop stage: Shutdown, then every registered callback once in registration order, then Close
-	if len(sb) > 0 && exitIdx >= 0 {
+	// (a2) the graceful-stop stage: Shutdown, then every registered callback once in registration order, then Close -
+	// where the thread that ran the stage is the one that reaches Stopped (a stop at once asked for by
+	// SIGINT / SIGQUIT while another goroutine drains legitimately ends the process under it)
+	if len(sb) > 0 && exitIdx >= 0 && lg[sb[0]].Th == lg[exitIdx].Th {
 		g1, g2 := all("graceful-cb#1"), all("graceful-cb#2")
 		bad := len(g1) != 1 || len(g2) != 1 || len(se) == 0
 		if !bad {
@@ -732,8 +734,9 @@ func (w *c11sWorld) judge() []c11sFinding {
 				fmt.Sprintf("history %q schedule %v: shutdown-end %v cb#1 %v cb#2 %v close %v; log: %s", w.c.hist(), w.c.Choices, se, g1, g2, cl, w.logText()))
 		}
 	}
-	// (a3) nothing twice; Close before the after-stop stages, those in order
-	if len(sb) > 1 || len(cl) > 1 || len(all("after-stop#1")) > 1 || len(all("after-stop#2")) > 1 {
+	// (a3) nothing twice (not compared once SIGINT / SIGQUIT asked for a stop at once: a second goroutine may
+	// then run Stop() next to one that is draining); Close before the after-stop stages
+	if (len(sb) > 1 || len(cl) > 1 || len(all("after-stop#1")) > 1 || len(all("after-stop#2")) > 1) && !immediate(len(lg)) {
 		add("the application is shut down / closed / cleaned up twice",
 			fmt.Sprintf("history %q schedule %v: shutdown-begin %v close %v after-stop %v; log: %s", w.c.hist(), w.c.Choices, sb, cl, as, w.logText()))
 	}
@@ -936,7 +939,7 @@ func c11sExplore(p *vreport.Part, c c11sCase, replay bool, maxExecs int) c11sRun
 var c11sAlphabet = []string{"run", "term", "quit", "hup+", "hup-", "int", "up+", "up-", "tick"}
 
 func TestVerifC11Stages(t *testing.T) {
-	p := vreport.Begin("C11", c11sPart, 4*time.Minute)
+	p := vreport.Begin("C11", c11sPart, time.Duration(vreport.Pick(4, 15))*time.Minute)
 	// environment of the code under test
 	log.DefaultLogger.SetLogLevel(pkglog.FATAL)
 	log.StartLogger.SetLogLevel(pkglog.FATAL)
@@ -1021,8 +1024,9 @@ func TestVerifC11Stages(t *testing.T) {
 						p.AddStates(1)
 						next = append(next, node{h, r.def})
 					}
-					// the same event with a second one delivered together with it
-					if d+1 > cf.depth || e == "tick" {
+					// the same event with a second one delivered together with it (quick: in the plain
+					// configuration only)
+					if d+1 > cf.depth || e == "tick" || (!vreport.Thorough() && cf.cfg != (c11sCfg{})) {
 						continue
 					}
 					for _, e2 := range c11sAlphabet {
@@ -1047,10 +1051,8 @@ func TestVerifC11Stages(t *testing.T) {
 						if vreport.Thorough() && r2.def != nil && !seen[r2.def.endKey] && d+2 <= cf.depth {
 							seen[r2.def.endKey] = true
 							p.AddStates(1)
-							// a pair counts as two events: its successors are expanded one level later
-							// (appended to the next frontier; the depth check above is by level, so the
-							// pair state is expanded with one event less than its level allows only in
-							// the last level, where nothing is expanded anyway)
+							// a pair is two events: its end state joins the frontier of the next level, whose
+							// histories have d+1 events
 							next = append(next, node{h2, r2.def})
 						}
 					}
@@ -1061,6 +1063,6 @@ func TestVerifC11Stages(t *testing.T) {
 		p.Count("frontier_states_not_expanded", len(frontier))
 	}
 	p.End(complete,
-		fmt.Sprintf("histories of <= %d events (the run included; <= %d for the callback-error / nil-handler / from-upgrade configurations, 2 for the start-failure ones) over {run, term, quit, hup+, hup-, int, up+, up-, tick}, every pair of events also delivered together; below every sequential history all schedules with <= %d preemptions, below every history ending in a pair all with <= %d", depth, depth-1, bound, pairBound),
+		fmt.Sprintf("histories of <= %d events (the run included; <= %d for the callback-error / nil-handler / from-upgrade configurations, 2 for the start-failure ones) over {run, term, quit, hup+, hup-, int, up+, up-, tick}, at most one notice before the run, every pair of events also delivered together (quick: in the plain configuration only); below every sequential history all schedules with <= %d preemptions, below every history ending in a pair all with <= %d", depth, depth-1, bound, pairBound),
 		"breadth-first over histories with canonical-state de-duplication (state = key() of the default-schedule execution at the end of the history; successors by replaying history + event on a fresh StageManager); every execution is one (history, schedule) and is judged on its own record; distinct = (configuration, history, end state); outcome = (end state, how the process ended)")
 }
